@@ -11,7 +11,7 @@ struct C17;
 /// all search tokens: every 3..=4 character window without space of the word list
 fn tokens() -> Vec<String> {
     let mut set = BTreeSet::new();
-    for i in 0..12u8 {
+    for i in 0..(WORDS.len() as u8) {
         let t = text_for(i);
         for w in t.split(' ') {
             let c: Vec<char> = w.chars().collect();
@@ -131,7 +131,12 @@ async fn check_peer(w: &SyncWorld, pi: usize, hist: &History, when: &str, o: &mu
                 None => "stale:row-not-stored",
                 Some(n) => {
                     let had = hist.past.get(id).map(|t| t.iter().any(|x| x.contains(&tok))).unwrap_or(false);
-                    if had && n.key != my_key {
+                    // the row itself was deleted on this peer at an older version and came back at a newer
+                    // one: the index entry of the deleted version was never removed (known root cause)
+                    let deleted_here = snap.node_dels.iter().any(|d| &d.id == id);
+                    if had && deleted_here {
+                        "stale:text-of-deleted-row-in-reused-slot"
+                    } else if had && n.key != my_key {
                         "stale:previous-text-after-update-received-by-synchronisation"
                     } else if had {
                         "stale:previous-text-after-local-update"
